@@ -102,7 +102,7 @@ Print Assumptions C09_no_logexc.
 Definition tid_case : tcase :=
   {| t_content := [1; 2; 3; 4; 5; 6; 7; 8; 9; 10; 11]%N; t_chunks := []; t_netascii := false;
      t_options := [(lit "blksize"%string, lit "8"%string)];
-     t_limits := {| max_bs := 65464; max_tmo := 30; default_tmo := 2 |}; t_retries := 1; t_wrap := Some 0%N;
+     t_limits := {| max_bs := 65464; max_tmo := 30720; default_tmo := 2048 |}; t_retries := 1; t_wrap := Some 0%N;
      t_kind := KNoFileno;
      t_events := [Recv 3 1 [0; 4; 0; 0]; Recv 5 0 [0; 4; 0; 0]; Recv 5 2 [9]; Recv 700 3 [0; 5; 0; 0; 0];
                   Recv 2100 0 [0; 4; 0; 1]; Recv 2101 1 []; Recv 2102 0 [0; 4; 0; 2]]%N;
@@ -117,12 +117,12 @@ Proof. split; [split; [reflexivity|cbn; lia]|]. vm_compute. repeat split; reflex
 (* an ERROR with an unknown code and no message, and a 5-byte ACK *)
 Definition err_case : tcase :=
   {| t_content := [1; 2; 3]%N; t_chunks := []; t_netascii := false; t_options := [];
-     t_limits := {| max_bs := 65464; max_tmo := 30; default_tmo := 2 |}; t_retries := 1; t_wrap := Some 0%N;
+     t_limits := {| max_bs := 65464; max_tmo := 30720; default_tmo := 2048 |}; t_retries := 1; t_wrap := Some 0%N;
      t_kind := KNoFileno; t_events := [Recv 7 0 [0; 5; 255; 255]]%N;
      t_proc := 0; t_v := current; t_nv := ncurrent; t_na_always_skip := false |}.
 Definition inv_case : tcase :=
   {| t_content := [1; 2; 3]%N; t_chunks := []; t_netascii := false; t_options := [];
-     t_limits := {| max_bs := 65464; max_tmo := 30; default_tmo := 2 |}; t_retries := 1; t_wrap := Some 0%N;
+     t_limits := {| max_bs := 65464; max_tmo := 30720; default_tmo := 2048 |}; t_retries := 1; t_wrap := Some 0%N;
      t_kind := KNoFileno; t_events := [Recv 7 0 [0; 4; 0; 1; 0]]%N;
      t_proc := 0; t_v := current; t_nv := ncurrent; t_na_always_skip := false |}.
 Example C09_terminal_nonvacuous :
